@@ -58,10 +58,17 @@ class VCSink:
     def __init__(self, res, prop, max_samples=3):
         self.res, self.prop, self.max_samples = res, prop, max_samples
 
-    def check(self, path, name, claim, axioms=(), site=None, describe=None, model_of=None, timeout_ms=None, prefer=()):
+    def check(self, path, name, claim, axioms=(), site=None, describe=None, model_of=None, timeout_ms=None, prefer=(), isolated=False, guided_free=None):
         """name: VC id without the property prefix. describe(model)->dict builds the candidate's
         concrete input from the model."""
-        r, m, nontrivial = path.check(claim, axioms, timeout_ms, prefer)
+        if isolated:
+            r, m, nontrivial = path.check_isolated(claim, axioms, timeout_ms or 30000, prefer)
+        else:
+            r, m, nontrivial = path.check(claim, axioms, timeout_ms, prefer)
+        if r == "unknown" and guided_free is not None:
+            r2, m2 = path.check_guided(claim, set(guided_free), prefer)
+            if r2 == "sat":
+                r, m = "sat", m2
         res = self.res
         res["vcs"] += 1
         structural = (not nontrivial) and r == "unsat" and len(path.decisions) > 0
@@ -88,19 +95,30 @@ class VCSink:
                 cand["describe_error"] = repr(e)
             res["candidates"].append(cand)
         else:
-            res["unknown"].append({"vc": vcid, "shape": res["shape"], "decisions": _short(path.decisions)})
+            res["unknown"].append({"vc": vcid, "site": site, "shape": res["shape"], "decisions": _short(path.decisions)})
         return r
 
 
-def add_witness(res, path, describe, vc="witness", site=None, limit=2):
+def add_witness(res, path, describe, vc="witness", site=None, limit=2, isolated=False, prefer=()):
     """a model of the path condition = a concrete input that drives the real code down this path;
     the framework replays a sample of them on the real build (must agree with the property's oracle)"""
     if len(res["witnesses"]) >= limit:
         return
     from . import core
-    s = path.solver
-    if core.guarded_check(s, 30) != core.z3.sat:
-        return
+    if isolated:
+        # path condition only (side constraints such as LAPACK hypotheses make plain satisfiability hard for z3)
+        s = core.z3.Solver()
+        s.set("timeout", 20000)
+        for c in path.pc:
+            s.add(c)
+        for c in prefer:
+            s.add(c)
+        if core.guarded_check(s, 25) != core.z3.sat:
+            return
+    else:
+        s = path.solver
+        if core.guarded_check(s, 30) != core.z3.sat:
+            return
     try:
         res["witnesses"].append({"vc": vc, "site": site, "shape": res["shape"], "model": describe(s.model()), "witness": True})
     except Exception as e:  # pragma: no cover
@@ -213,6 +231,11 @@ def run_check(modname, tier, seed):
         if r.get("capped"):
             inconclusive.append("cap hit in shape %s: %s" % (json.dumps(r["shape"], default=str), r.get("cap_reason")))
         for u in r.get("unknown", []):
+            # an undecided VC at a site for which a finding is RECORDED only means "the known defect was not re-derived
+            # in this shape" (its masked twin was proved); everywhere else unknown is inconclusive
+            if match_known({"vc": u["vc"], "site": u.get("site")}, known) is not None:
+                r.setdefault("notes", []).append("recorded finding not re-derived (solver unknown) for %s in one shape" % u["vc"])
+                continue
             inconclusive.append("solver answered unknown for %s in shape %s" % (u["vc"], json.dumps(u["shape"], default=str)))
         if r.get("twin_ok") is False:
             inconclusive.append("reachability twin not sat (vacuous harness) in shape %s" % json.dumps(r["shape"], default=str))
@@ -266,8 +289,9 @@ def run_check(modname, tier, seed):
         c, rr = repro[0]
         k = match_known(c, known)
         if k is not None:
+            if not any(ks["finding"] == k.get("id") for ks in known_seen):
+                print("KNOWN-FINDING: property=%s %s [%s]" % (prop, k.get("what", k.get("id")), k.get("id")))
             known_seen.append({"finding": k.get("id"), "vc": sig[0], "site": sig[1], "n_candidates": len(groups[sig])})
-            print("KNOWN-FINDING: property=%s %s [%s]" % (prop, k.get("what", k.get("id")), k.get("id")))
             continue
         h = hashlib.sha256(json.dumps([sig, c.get("model")], sort_keys=True, default=str).encode()).hexdigest()[:10]
         rp = os.path.join(VERIF, "replays", "%s-%s.json" % (prop, h))
